@@ -106,11 +106,29 @@ impl AstLowering {
             matches!(&args[0].node, ast::Type::Simple(t) if t == newtype_name)
         }
 
+        /// Structural type equality that ignores source spans (the derived `PartialEq` compares the spans of nested
+        /// type arguments, so `List[int]` written in two places is never `==`).
+        fn same_type(a: &ast::Type, b: &ast::Type) -> bool {
+            fn same_types(xs: &[ast::Spanned<ast::Type>], ys: &[ast::Spanned<ast::Type>]) -> bool {
+                xs.len() == ys.len() && xs.iter().zip(ys).all(|(x, y)| same_type(&x.node, &y.node))
+            }
+            match (a, b) {
+                (ast::Type::Simple(x), ast::Type::Simple(y)) => x == y,
+                (ast::Type::Generic(x, xs), ast::Type::Generic(y, ys)) => x == y && same_types(xs, ys),
+                (ast::Type::Function(xs, xr), ast::Type::Function(ys, yr)) => {
+                    same_types(xs, ys) && same_type(&xr.node, &yr.node)
+                }
+                (ast::Type::Tuple(xs), ast::Type::Tuple(ys)) => same_types(xs, ys),
+                (ast::Type::Unit, ast::Type::Unit) | (ast::Type::SelfType, ast::Type::SelfType) => true,
+                _ => false,
+            }
+        }
+
         fn matches_underlying_param(m: &ast::MethodDecl, underlying: &ast::Type) -> bool {
             if m.params.len() != 1 {
                 return false;
             }
-            m.params[0].node.ty.node == *underlying
+            same_type(&m.params[0].node.ty.node, underlying)
         }
 
         // Candidate: static method named from_* with (underlying) -> Result[T, E]
